@@ -203,7 +203,10 @@ class Sim:
                     own_nonce = rng.random() < 0.15
                     self.ev("greet", list(ad), own_nonce)
                     peer_obj = next((p for p in self.nm.connected_peers.values() if p.sock is c.peer), None)
-                    c.push(self.wire.hello(nonce=self.lp.nonce if own_nonce else rng.randrange(1 << 32), my_port=ad[1]))
+                    # a greeting that really comes from the node itself advertises the node's own listening port, which
+                    # need not be the port that was dialed (port forwarding / NAT)
+                    c.push(self.wire.hello(nonce=self.lp.nonce if own_nonce else rng.randrange(1 << 32),
+                                           my_port=self.own[1] if own_nonce else ad[1]))
                     greeted.add(id(c))
                     net.settle(node)
                     # the greeting only counts when the node really processed it (earlier garbage on the same connection
